@@ -96,6 +96,7 @@ type Oracle struct {
 	backoff     map[string]*backoffRec
 	suffixTrunc []truncRec // per node: the last suffix truncation
 	restoresOK  []restoreOK
+	restoreAborted bool // a user Restore returned an error after it had taken effect on its server
 	installing  []int // per node: InstallSnapshot RPCs being handled
 	userRestoring []int
 	isolatedSince []int64
